@@ -20,6 +20,7 @@ DICT = ["HTTPServer", "XMLHttpRequest2", "Utf8_String", "GreenApple", "Red", "X"
         "SCREAMING_ONE", "Blue2Go", "darkGray", "Http2_Proxy", "V10", "QRCode", "WiFi", "Z9", "__Private", "Trailing_", "a", "AB", "ABc",
         "AbC", "aBC", "A1", "A_1", "x1Y2z3", "HTMLParser", "parseHTML", "getX", "XY_Z", "Ab__Cd", "L10n", "i18nText", "ISO8601Date",
         "Point3D", "Vec2f", "u8Value"]
+RAW = ["r#type", "r#Match", "r#loop_Forever", "r#HTTPAsync"]      # raw identifiers: the name is the identifier without `r#`
 NEAR = ["Snake_Case", "snake-case", "camelcase", "", "PASCALCASE", "kebab-case ", "SCREAMING_KEBAB_CASE", "train-case", "Title_Case",
         "pascal_case", "Mixed_case", "UPPER_CASE", "lower_case", "snake case", "camel-case", "shouty-snake-case"]
 ALPHA = "abAB1_"
@@ -76,7 +77,7 @@ def build_corpus(tier, rng):
     for si, st in enumerate(G.STYLES):
         for rep in range(3 if thorough else 1):
             names = DICT[:] if thorough else rng.sample(DICT, 14)
-            names = [n for n in names if n != "a"]
+            names = [n for n in names if n != "a"] + (RAW if thorough else rng.sample(RAW, 2))
             vs = []
             for i, ident in enumerate(names):
                 kind = ["unit", "tuple", "named"][i % 3]
@@ -108,6 +109,8 @@ def build_corpus(tier, rng):
                     c.add_q(k, "fromstr", [S.hx(sp)], note="spelling")
             for ident in names:
                 c.add_q(k, "fromstr", [S.hx(ident)], note="near-ident")
+                if ident.startswith("r#"):
+                    c.add_q(k, "fromstr", [S.hx(ident[2:])], note="near-ident")
     return c
 
 
